@@ -20,6 +20,7 @@ ASSUMPTIONS = ["dot conjugates its second argument and bilinear_form its first (
                "dense counterpart, so they are generated with an accept-or-correct oracle: InvalidArguments/ShapeMismatch, or the right value"]
 
 SZ = (1, 2, 3, 4, 5)
+LIBERR = ("ShapeMismatch", "RankMismatch", "IncompatibleTypes", "InvalidArguments", "NotImplementedError")
 
 
 @st.composite
@@ -177,16 +178,15 @@ def execute(case):
             arg = neg[0] if case["form"] == "int" else neg
             try:
                 got = lib(lambda: x.sum(arg))
-            except core.LibraryException:
-                ck.label("negative_axis_rejected")
-                return ck.verdict()
+            except core.LibraryException as e:
+                if type(e.orig).__name__ in LIBERR:
+                    ck.label("negative_axis_rejected")
+                    return ck.verdict()
+                raise
         elif case.get("listed") and case["listed"] != list(idx):
             ck.label("unsorted_index_list")
-            try:
-                got = lib(lambda: x.sum(list(case["listed"])))
-            except core.LibraryException:
-                ck.label("unsorted_index_list_rejected")
-                return ck.verdict()
+            # a permuted list names the same set of modes (inside the quantifier): it has to work
+            got = lib(lambda: x.sum(list(case["listed"])))
         else:
             got = lib(lambda: x.sum(arg))
         dims = list(idx) + ([i + d for i in idx] if ttm else [])
@@ -225,9 +225,11 @@ def execute(case):
                 ck.label("tuple_axis")
             try:
                 got = lib(lambda: T.dot(x, y, neg))
-            except core.LibraryException:
-                ck.label("negative_axis_rejected")
-                return ck.verdict()
+            except core.LibraryException as e:
+                if type(e.orig).__name__ in LIBERR:
+                    ck.label("negative_axis_rejected")
+                    return ck.verdict()
+                raise
         else:
             got = lib(lambda: T.dot(x, y, list(ax)))
         yd, ya = dense(yc), dense_abs(yc)
